@@ -25,6 +25,11 @@ func init() {
 				return 100000
 			}
 			return 2000
+		}}, {Name: "unrepresentable_cost", NumCases: func(t string) int {
+			if t == "thorough" {
+				return 20000
+			}
+			return 600
 		}}, {Name: "large", NumCases: func(t string) int {
 			if t == "thorough" {
 				return 32
@@ -44,7 +49,7 @@ func init() {
 }
 
 func floorsC19() map[string]int64 {
-	return map[string]int64{"query.connected": 5000, "query.disconnected": 200, "query.same_node": 100, "query.optimal_differs_from_fewest_links": 200, "minimise.Distance": 300, "minimise.Time": 300, "topology.detour": 100, "topology.two_components": 100, "topology.grid": 100, "topology.tree": 100, "topology.near_tie_lattice": 100, "net.cell_beyond_1e155": 50, "query.on_node": 1000, "order.fastest_first": 100, "speeds.all_equal_below_1": 50, "query.nearly_equal_points_across_a_bisector": 500, "order.incremental_queries_between_addlinks": 300, "incremental.link_between_existing_nodes_after_query": 300}
+	return map[string]int64{"overflow.cases": 400, "overflow.Time": 100, "overflow.Distance": 100, "query.connected": 5000, "query.disconnected": 200, "query.same_node": 100, "query.optimal_differs_from_fewest_links": 200, "minimise.Distance": 300, "minimise.Time": 300, "topology.detour": 100, "topology.two_components": 100, "topology.grid": 100, "topology.tree": 100, "topology.near_tie_lattice": 100, "net.cell_beyond_1e155": 50, "query.on_node": 1000, "order.fastest_first": 100, "speeds.all_equal_below_1": 50, "query.nearly_equal_points_across_a_bisector": 500, "order.incremental_queries_between_addlinks": 300, "incremental.link_between_existing_nodes_after_query": 300}
 }
 
 type link struct {
@@ -320,7 +325,82 @@ func genLarge(c *core.Ctx, r *gen.R) (*netw, string) {
 	return n, "large_grid"
 }
 
+// runOverflow: chains of one to three links between connected nodes whose cost is no float64:
+// a link of ordinary length with a subnormal (positive) speed takes +Inf time, two links of
+// 1e308 are +Inf long together. Every chain between the two nodes then costs +Inf, every one of
+// them is minimal, and the route must still be a chain between the two nodes. All violations of
+// this phase go under ONE key: it exhibits a recorded limitation (known_findings.json).
+func runOverflow(c *core.Ctx) {
+	r := c.R
+	n := r.IntRange(1, 3)
+	opt, optName := route.Distance, "Distance"
+	H := r.Range(0.95e308, 1.7e308)
+	speeds := make([]float64, n)
+	for i := range speeds {
+		speeds[i] = r.Range(1, 100)
+	}
+	if r.Bool() {
+		opt, optName = route.Time, "Time"
+		H = math.Pow(10, r.Range(0, 6))
+		// one link takes +Inf hours
+		speeds[r.Intn(n)] = math.Float64frombits(uint64(r.IntRange(1, 1<<20)))
+	} else {
+		// two links at a right angle: every distance between two nodes is still a float64
+		// (with three, the ends are more than 1.8e308 apart and AddLink cannot tell nodes apart)
+		n = 2
+		speeds = []float64{r.Range(1, 100), r.Range(1, 100)}
+	}
+	// nodes along a line, or along a right-angled path
+	pts := []geom.Point{{X: -H / 2, Y: 0}}
+	step := H / 2
+	if optName == "Distance" {
+		step = r.Range(0.95e308, 1.2e308) // two steps are +Inf together
+		pts[0].X = -0.7 * step
+	}
+	for i := 0; i < n; i++ {
+		p := pts[len(pts)-1]
+		if i%2 == 0 {
+			p.X += step
+		} else {
+			p.Y += step
+		}
+		pts = append(pts, p)
+	}
+	net := route.NewNetwork(opt)
+	var links []interface{}
+	total := 0.0
+	for i := 0; i < n; i++ {
+		ls := geom.LineString{pts[i], pts[i+1]}
+		net.AddLink(ls, speeds[i])
+		links = append(links, map[string]interface{}{"line": gen.Dump(ls), "speed": speeds[i]})
+		if optName == "Distance" {
+			total += step
+		} else {
+			total += step / speeds[i]
+		}
+	}
+	if !math.IsInf(total, 1) {
+		return
+	}
+	c.Count("overflow.cases")
+	c.Count("overflow." + optName)
+	detail := map[string]interface{}{"minimise": optName, "links_in_insertion_order": links, "from": []float64{pts[0].X, pts[0].Y}, "to": []float64{pts[n].X, pts[n].Y}}
+	c.Eval()
+	c.Guard("ShortestRoute", detail, func() {
+		rt, _, _, _, _ := net.ShortestRoute(pts[0], pts[n])
+		if len(rt) != n {
+			c.Violate("connected-but-no-route:cost-is-not-a-float64", fmt.Sprintf("minimising %s: the two nodes are joined by a chain of %d links whose cost is +Inf in float64; ShortestRoute returned %d links", optName, n, len(rt)), detail)
+		} else {
+			c.Count("overflow.route_returned")
+		}
+	})
+}
+
 func run(c *core.Ctx, idx int) {
+	if c.Phase == "unrepresentable_cost" {
+		runOverflow(c)
+		return
+	}
 	r := c.R
 	var nw *netw
 	var topo string
